@@ -74,10 +74,13 @@ type RawCSVSeq string
 // Value returns an iterator over the raw comma-separated string and a boolean indicating
 // whether the result is valid.
 func (s RawCSVSeq) Value() (seq iter.Seq[string], valid bool) {
-	if len(s) == 0 {
-		return
+	// A list without a single member (empty, blank or separators only, e.g. no-cache=",")
+	// is no list: empty elements do not count (RFC 9110 §5.6.1).
+	members := TrimmedCSVSeq(string(s))
+	for range members {
+		return members, true
 	}
-	return TrimmedCSVSeq(string(s)), true
+	return nil, false
 }
 
 // directivesSeq2 returns an iterator over all key-value pairs in a string of
